@@ -94,6 +94,7 @@ func gen(g *hx.Gen) {
 	for _, s := range wire.GenBoundary(r.Fork(77), false) {
 		emit(g, s.Op, s.Bytes)
 	}
+	genMsg(g)
 	// every prefix of a few valid encodings (each list position is hit by a truncation)
 	for i := 0; i < g.N(6, 40); i++ {
 		s := wire.GenSample(r)
@@ -109,6 +110,9 @@ func gen(g *hx.Gen) {
 func oracle(t []string, out string) *hx.Violation {
 	if out == "panic" {
 		return &hx.Violation{Kind: "decode-panic", Detail: "decoder panicked: " + hx.LastPanic()}
+	}
+	if t[0] == "msg" {
+		return msgOracle(t, out)
 	}
 	tok := t[len(t)-1]
 	body := t
@@ -190,7 +194,14 @@ func watchdog() {
 	}
 }
 
+func exec(t []string) string {
+	if t[0] == "msg" {
+		return execMsg(t)
+	}
+	return wire.Exec(t)
+}
+
 func main() {
 	go watchdog()
-	hx.Main(&hx.Prop{Name: "C02", Gen: gen, Exec: watched(wire.Exec), Oracle: oracle, Nontrivial: nontrivial, Bucket: bucket})
+	hx.Main(&hx.Prop{Name: "C02", Gen: gen, Exec: watched(exec), Oracle: oracle, Nontrivial: nontrivial, Bucket: bucket})
 }
